@@ -133,8 +133,9 @@ CHECKS["C17"] = {
     "level_text": "Generated schedules with barriers: Serve returns http.ErrServerClosed, not before a genuinely in-flight HTTP/1.1 exchange ends and within 2 s after it (10 s when there is none), listener closed, no post-cancel attempt served, idle/new/mid-handshake HTTP/1.1 connections closed.",
     "level_note": _E2E_NOTE + " Schedule points are those reachable by quiescence barriers and fake-time sleeps, not arbitrary instruction interleavings; the pause-point variant (cancel between handshake and hand-over) lives in C11's c11.pause-cancel.",
     "assumptions": ["'within seconds' is read as 10 s of fake time (net/http's Shutdown closes never-used connections after 5 s and polls with back-off)"],
-    "units": [{"name": "c17", "pkg": "c17", "run": "^Test", "shards": 8}],
-    "expect_checks": ["c17.shutdown"],
+    "units": [{"name": "c17", "pkg": "c17", "run": "^Test", "shards": 8},
+              {"name": "c17w", "pkg": ".", "overlay": "root", "run": "^TestVerifWiringC17$", "shards": 4}],
+    "expect_checks": ["c17.shutdown", "c17.binary-signals"],
 }
 
 CHECKS["C10"] = {
